@@ -634,6 +634,8 @@ func patTerm(e ast.Expr) *Term {
 			return mk("nil", "")
 		case x.Name == "ELEM":
 			return elemTerm
+		case x.Name == "KEY":
+			return keyTerm
 		}
 		return mk("const", x.Name)
 	case *ast.BasicLit:
